@@ -54,8 +54,9 @@ func exercise(t *tree.Tree) error {
 		return nil
 	}
 	if t.Root() == nil {
-		// a tree object without root is not a delivered tree; writers are not defined on it
-		return nil
+		// a record that announces success with a tree object that has no root: nothing can be done
+		// with it (every traversal and every writer dereferences the root)
+		return fmt.Errorf("a tree is delivered without error and has no root")
 	}
 	_ = t.Nodes()
 	_ = t.Tips()
@@ -290,6 +291,11 @@ var hostile = []string{
 	"#NEXUS\nBEGIN TAXA;\nDIMENSIONS NTAX=;\nEND;", "#NEXUS\nBEGIN TAXA;\nTAXLABELS a b;\nEND;\nBEGIN TREES;\nTREE t = (a);\nEND;", "#NEXUS\nBEGIN", "#NEXUS\nBEGIN TREES",
 	"#NEXUS\nBEGIN TREES;\nTREE t = ;\nEND;", "#NEXUS\nBEGIN TREES;\nTREE t = (a,b)\nEND;", "#NEXUS\r\nBEGIN TREES;\r\nTREE t = (a,b);\r\nEND;\r\n", "#NEXUS\rBEGIN TREES;",
 	"#NEXUS\nBEGIN DATA;\nMATRIX\n a ACGT\n;\nEND;", "#NEXUS\nBEGIN DATA;\nDIMENSIONS NTAX=1 NCHAR=2;\nFORMAT DATATYPE=foo;\nMATRIX\n a AC\n;\nEND;",
+	"#NEXUS\nBEGIN DATA;\nDIMENSIONS NTAX=-4 NCHAR=4;\nFORMAT DATATYPE=dna;\nMATRIX\n a ACGT\n b ACGT\n;\nEND;\nBEGIN TREES;\nTREE t = (a,b);\nEND;",
+	"#NEXUS\nBEGIN DATA;\nDIMENSIONS NTAX=9223372036854775807 NCHAR=4;\nMATRIX\n a ACGT\n;\nEND;", "#NEXUS\nBEGIN DATA;\nDIMENSIONS NTAX=2 NCHAR=-3;\nMATRIX\n a ACGT\n b ACGT\n;\nEND;",
+	"#NEXUS\nBEGIN TAXA;\nDIMENSIONS NTAX=-2;\nTAXLABELS a b;\nEND;\nBEGIN TREES;\nTREE t = (a,b);\nEND;", "#NEXUS\nBEGIN DATA;\nDIMENSIONS NTAX=0 NCHAR=0;\nMATRIX\n;\nEND;",
+	"<phyloxml><phylogeny rooted=\"false\"/></phyloxml>", "<phyloxml><phylogeny rooted=\"true\"><name>x</name></phylogeny></phyloxml>",
+	"<phyloxml><phylogeny><clade><name>a</name></clade></phylogeny><phylogeny/></phyloxml>", "<phyloxml><phylogeny/><phylogeny><clade><clade><name>a</name></clade><clade><name>b</name></clade></clade></phylogeny></phyloxml>",
 	"<phyloxml>", "<phyloxml></phyloxml>", "<phyloxml><phylogeny></phylogeny></phyloxml>", "<phyloxml><phylogeny><clade></clade></phylogeny></phyloxml>",
 	"<phyloxml><phylogeny><clade><clade><name>a</name></clade></clade></phylogeny></phyloxml>", "<phyloxml><phylogeny><clade><name>a</name></clade></phylogeny></phyloxml>",
 	"<phyloxml><phylogeny><clade><clade/><clade/></clade></phylogeny></phyloxml>", "<phyloxml><phylogeny rooted=\"x\"><clade/></phylogeny></phyloxml>",
